@@ -8,6 +8,7 @@ import (
 	"crypto/sha256"
 	"encoding/hex"
 	"fmt"
+	"strings"
 	"runtime/debug"
 	"sort"
 	"sync"
@@ -165,6 +166,24 @@ type Instance struct {
 	// Faithful: when true Restore re-creates nothing special; the flag is only
 	// informational for scenarios that run whole blocks from a boundary.
 	Logger log.Logger
+	// ErrLog collects what the modules log at Error level (contained failures: an event whose handler failed or
+	// panicked, payouts of an executed batch that could not be made, ...); scenarios clear and read it
+	ErrLog []string
+}
+
+// errLogger records Error-level messages of the modules in Instance.ErrLog.
+type errLogger struct {
+	in *Instance
+	kv []interface{}
+}
+
+func (l errLogger) Debug(string, ...interface{}) {}
+func (l errLogger) Info(string, ...interface{})  {}
+func (l errLogger) Error(msg string, kv ...interface{}) {
+	l.in.ErrLog = append(l.in.ErrLog, strings.TrimSpace(fmt.Sprint(msg, " ", fmt.Sprint(append(append([]interface{}{}, l.kv...), kv...)...))))
+}
+func (l errLogger) With(kv ...interface{}) log.Logger {
+	return errLogger{l.in, append(append([]interface{}{}, l.kv...), kv...)}
 }
 
 var maccPerms = map[string][]string{
@@ -184,7 +203,8 @@ var ModuleAddr = authtypes.NewModuleAddress(mhubtypes.ModuleName)
 // New builds the keepers. No genesis is installed; call Restore or InitGenesis next.
 func New() *Instance {
 	SetAddressConfig()
-	in := &Instance{Staking: &Staking{}, Logger: log.NewNopLogger()}
+	in := &Instance{Staking: &Staking{}}
+	in.Logger = errLogger{in: in}
 	reg := codectypes.NewInterfaceRegistry()
 	std.RegisterInterfaces(reg)
 	authtypes.RegisterInterfaces(reg)
